@@ -4,6 +4,9 @@
 use std::io::{self, BufRead, Write};
 
 mod cell;
+mod dump;
+mod vio;
+mod run;
 
 fn main() {
     let stdin = io::stdin();
@@ -17,6 +20,13 @@ fn main() {
         let fields: Vec<&str> = line.split('|').collect();
         let res = match fields[0] {
             "cell" => cell::run(&fields[1..]),
+            "run" => run::run(&fields[1..]),
+            "dumpir" => run::dumpir(&fields[1..]),
+            "dumpbc" => run::dumpbc(&fields[1..]),
+            "heldbc" => run::heldbc(&fields[1..]),
+            "parse" => run::parse(&fields[1..]),
+            "runir" => run::runir(&fields[1..]),
+            "runbc" => run::runbc(&fields[1..]),
             k => format!("ERR unknown kind {k}"),
         };
         writeln!(out, "{res}").unwrap();
